@@ -169,6 +169,13 @@ AllEqOK(e, ln) ==
         /\ RecCount(a) = RecCount(b)
         /\ \A u \in 1..RecCount(a) : RecIndex(a, u) = RecIndex(b, u) /\ RecBytes(a, u) = RecBytes(b, u)
 
+\* a large round on every engine: identical digests over all recovery shards, right number of shards
+XencOK(e) ==
+  /\ Supports(e.rate, e.k, e.r)
+  /\ Cardinality(DOMAIN e.digs) >= 2 /\ "naive" \in DOMAIN e.digs
+  /\ \A g \in DOMAIN e.digs : e.digs[g] = e.digs["naive"]
+  /\ \E t \in 1..6 : SubSeq(e.digs["naive"], 1, t) = ToString(e.r) \o ":"
+
 EventOK(e, ln) ==
   CASE e.ev = "enc"  -> EncOK(e)
     [] e.ev = "dec"  -> DecOK(e)
@@ -176,6 +183,7 @@ EventOK(e, ln) ==
     [] e.ev = "scal" -> ScalOK(e, ln)
     [] e.ev = "same" -> SameOK(e, ln)
     [] e.ev = "alleq" -> AllEqOK(e, ln)
+    [] e.ev = "xenc" -> XencOK(e)
     [] OTHER -> FALSE        \* an event the specification has no action for (e.g. a panic) is rejected
 
 TraceInv == ph = 1 => \A e \in {Rec[l]} : EventOK(e, l)
